@@ -135,7 +135,8 @@ def expected_atoms(state):
 # ---------------------------------------------------------------------------
 # chain layouts
 # ---------------------------------------------------------------------------
-LAYOUTS = ["one", "two", "three", "blank_ter", "same_id_oxt", "lower",
+LAYOUTS = ["one", "two", "three", "blank_ter", "blank_one_ter", "same_id_oxt",
+           "lower",
            "neg", "high", "gap", "icode", "descending", "water_tail",
            "hetero_tail", "hidden_end"]
 
@@ -157,7 +158,7 @@ def build_layout(layout, x, *, oxt=True):
     elif layout == "three":
         chains = [(seq, "A", nums(1), None), (seq, "B", nums(11), None),
                   (seq, "C", nums(21), None)]
-    elif layout == "blank_ter":
+    elif layout in ("blank_ter", "blank_one_ter"):
         chains = [(seq, "", nums(1), None), (seq, "", nums(11), None)]
     elif layout == "same_id_oxt":
         chains = [(seq, "A", nums(1), None), (seq, "A", nums(11), None)]
@@ -212,4 +213,11 @@ def build_layout(layout, x, *, oxt=True):
 def layout_text(layout, atoms):
     if layout == "hidden_end":
         return build.pdb_text(atoms, ter=False)
-    return build.pdb_text(atoms)
+    text = build.pdb_text(atoms)
+    if layout == "blank_one_ter":
+        # exactly one TER: between the chains, none after the last one
+        lines = text.splitlines()
+        last = max(i for i, l in enumerate(lines) if l.startswith("TER"))
+        del lines[last]
+        text = "\n".join(lines) + "\n"
+    return text
